@@ -198,6 +198,11 @@ func corrC13(r *Run) {
 			frame = rawFrame(id, 0, int32(1+r.Rng.Intn(1<<20)), handBody(r.Rng, multi))
 			bucket = "hand-laid"
 		}
+		if i%7 == 3 && len(frame) > 16 {
+			// a non-zero command_status in front of a body: only the header counts
+			binary.BigEndian.PutUint32(frame[8:], uint32(r.Rng.Pick([]int{1, 2, 0x45, 0xFF, 0x400})))
+			bucket += "+status"
+		}
 		binary.BigEndian.PutUint32(frame, uint32(len(frame)))
 		if len(frame) > 65536 {
 			continue
